@@ -250,8 +250,12 @@ def agree(prog, sk, vals, k=-1, exc=0, sup=False, why=None, k2=-1, exc2=0):
     if _agree_once(prog, sk, vals, k, exc, sup, why, k2, exc2, False):
         return True
     if _has_head(sk, "gfor"):
-        # see refsem.Interp.gfor_lazy_first
-        return _agree_once(prog, sk, vals, k, exc, sup, why, k2, exc2, True)
+        # see refsem.Interp.gfor_lazy_first: the docs only say that gfor is lazy; accepted are (False) Python's generator
+        # expression: first iterable evaluated and iter() called at creation, (True) nothing at all before the first
+        # next(), ("expr") first iterable evaluated at creation, iter() at the first next()
+        if _agree_once(prog, sk, vals, k, exc, sup, why, k2, exc2, True):
+            return True
+        return _agree_once(prog, sk, vals, k, exc, sup, why, k2, exc2, "expr")
     return False
 
 
